@@ -366,6 +366,11 @@ func (g *gen) response(code int) *node {
 		g.feat("regex-body")
 		nd.head = fmt.Sprintf("%d regex", code)
 		nd.body = []string{"/[a-z]{3}[0-9]{2}/"}
+		if g.r.Chance(1, 6) {
+			// accepted by the builder; the example generator of the serialisers cannot handle it
+			g.feat("regex-without-example")
+			nd.body = []string{g.r.Pick([]string{`/[^\x00-\x7F]/`, `/[\x{10000}-\x{10FFFF}]/`})}
+		}
 	case k < 7:
 		g.feat("resp-headers")
 		nd.head = fmt.Sprint(code)
